@@ -366,7 +366,8 @@ def run(ctx):
     ctx.guarded('C06-D2', 'obs.py:_covariance_element@scale-free', scale_free_guards, ctx, obs)
     ctx.guarded('C06-D3', 'obs.py@helpers', helpers, ctx, obs)
     ctx.guarded('C06-D3', 'obs.py@key-order', key_order_agreement, ctx, obs)
-    from . import C04
+    from . import C04, C05
+    ctx.guarded('C06-D2', 'obs.py:_reduce_deltas', C05.reduce_deltas_rules, ctx, obs, 'C06-D2')
     ctx.guarded('C06-D2', 'obs.py:_intersection_idx', C04.merge_idx_rules, ctx, obs, 'C06-D2', (('_intersection_idx', 'intersection'),))
     ctx.floor('C06 obligations', len(ctx.obs), 18)
 
